@@ -97,8 +97,9 @@ class ScriptedAccessory:
     """
 
     def __init__(self, ident: A.Identity | None = None, ctrl: A.ControllerIdentity | None = None, hook=None,
-                 code: str | None = None, fresh_srp: bool = False):
+                 code: str | None = None, fresh_srp: bool = False, srp_params=None):
         self.fresh_srp = fresh_srp
+        self.srp_params = srp_params       # (salt, b): the accessory's SRP salt and private key are given, not random
         self.ident = ident or A.Identity()
         self.ctrl = ctrl
         self.hook = hook
@@ -114,7 +115,13 @@ class ScriptedAccessory:
     def _honest(self, proto, st, items):
         if proto == "setup":
             if st == 1:
-                self.ps = _new_pair_setup(self.ident, self.code, self.fresh_srp)
+                if self.srp_params is not None:
+                    from .refacc.srp import SrpServer
+                    salt, b = self.srp_params
+                    self.ps = A.PairSetup(self.ident, code=self.code, salt=salt)
+                    self.ps.srp = SrpServer("Pair-Setup", self.code or self.ident.setup_code, salt=salt, b=b)
+                else:
+                    self.ps = _new_pair_setup(self.ident, self.code, self.fresh_srp)
                 return self.ps.on_m1(items)
             if st == 3:
                 return self.ps.on_m3(items)
